@@ -3,6 +3,7 @@
 package statedb
 
 import (
+	"bytes"
 	"fmt"
 
 	"github.com/aergoio/aergo/v2/internal/common"
@@ -21,7 +22,7 @@ func (states *StateDB) VerifLeaves(root []byte) (map[string][]byte, error) {
 	out := make(map[string][]byte, len(leaves))
 	for _, kv := range leaves {
 		raw := states.Store.Get(kv[1])
-		if len(raw) == 0 {
+		if len(raw) == 0 && !bytes.Equal(kv[1], common.Hasher(nil)) {
 			return nil, fmt.Errorf("value %x of key %x is not in the store", kv[1], kv[0])
 		}
 		out[string(kv[0])] = raw
